@@ -481,7 +481,10 @@ ENV = [
     ("N1", "class C:\n    x = 1\n", "C", SHARED),  # same repr as A and B
     ("N2", "class NotDC:\n    x = 1\n", "NotDC", "tlg_c19h_nd"),
 ]
-MOVES = [a[0] for a in ALPHABET] + [e[0] for e in ENV]
+# K: an instance of every ORIGINAL (undecorated) alphabet class is copied and pickled (the interpreter caches what it learns about
+# a class while doing so, e.g. copyreg's __slotnames__); a later decoration of that class must not inherit such a cache
+USE_ORIGINALS = "K"
+MOVES = [a[0] for a in ALPHABET] + [e[0] for e in ENV] + [USE_ORIGINALS]
 _HW = None
 
 
@@ -519,14 +522,39 @@ def _decorate(cls, sp, bare, decos=None):
     return decos[k](cls)
 
 
+def _use_originals(w):
+    import copy
+    import pickle
+
+    for mid, sp, cname, modname, bare in ALPHABET:
+        cls = w[mid][0]
+        args = [1] * sum(1 for _, k in info_of(sp, cname).params if k == "n")
+        x = cls(*args)
+        copy.copy(x)
+        try:
+            pickle.dumps(x)
+        except pickle.PicklingError:
+            pass  # two alphabet classes share one qualified name: not picklable by reference (copy.copy has filled the cache already)
+    return True
+
+
+def _forget_interpreter_caches(w):
+    for mid, *_ in ALPHABET:
+        cls = w[mid][0]
+        if "__slotnames__" in cls.__dict__:
+            type.__delattr__(cls, "__slotnames__")
+
+
 def _step(w, mid, judge=False, count=None, decos=None):
+    if mid == USE_ORIGINALS:
+        return call(_use_originals, w), []
     cls, sp, bare, cname = w[mid]
     if sp is None:
         return call(classes.slotted, cls), []
     out = call(_decorate, cls, sp, bare, decos)
     V = []
     if judge and out.ok:
-        V = SM.judge(cls, out.val, info_of(sp, cname), full=False, count=count)
+        V = SM.judge(cls, out.val, info_of(sp, cname), full=True, count=count)
         if not STRICT_INHERITED_SLOTS:
             V = [v for v in V if v[:2] != ("slots", "extra:inherited-field")]
     return out, V
@@ -537,6 +565,7 @@ def _play(hist, res=None, reuse=False):
     -> (out of the last step, [(kind, sig-or-(clause, mode), what)], guard after)   kind: 'cold' | 'hist'"""
     w, coldj = _hist_world()
     cold.clear_all()
+    _forget_interpreter_caches(w)
     prov = {}  # guard key -> (move id, step succeeded) of the step that left it behind
     decos = {} if reuse else None
     for mid in hist[:-1]:
@@ -548,6 +577,9 @@ def _play(hist, res=None, reuse=False):
         if res is not None:
             res.states.add(h64("C19-guard", sorted(classes._stack)))
     mid = hist[-1]
+    if mid == USE_ORIGINALS:
+        out, _ = _step(w, mid)
+        return out, [], frozenset(classes._stack)
     cls, sp, bare, cname = w[mid]
     count = None
     if res is not None:
@@ -618,6 +650,11 @@ def run_history(hist, res, reuse=False):
     res.hit(f"hist:len={len(hist)}" + (":reused-decorator" if reuse else ""))
     out, found, after = _play(hist, res, reuse)
     mid = hist[-1]
+    if mid == USE_ORIGINALS:
+        res.hit("hist:last=K" + (":ok" if out.ok else ":raises"))
+        if not out.ok:
+            raise RuntimeError(f"C19 harness: copying / pickling an ORIGINAL instance fails: {out!r}")
+        return
     sp = w[mid][1]
     res.states.add(h64("C19-guard", sorted(after)))
     res.hit(f"hist:guard-size-after={len(after)}")
